@@ -757,6 +757,16 @@ pub fn hook_format_choice_options(c: &crate::intermediate::types::Choice, parent
     crate::generator::rasn::Rasn::default().format_choice_options(c, parent)
         .map(|f| (f.enum_body.to_string(), f.nested_anonymous_types.iter().map(|t| t.to_string()).collect())).map_err(|e| format!("{e:?}"))
 }
+/// accessor for the native replay of unit GEN_values: Rasn::value_to_tokens, token text as proc_macro2 prints it
+#[cfg(not(kani))]
+pub fn hook_value_to_tokens(v: &crate::intermediate::ASN1Value, type_name: Option<&str>) -> Result<String, String> {
+    let tn: Option<proc_macro2::TokenStream> = type_name.map(|t| t.parse().unwrap());
+    crate::generator::rasn::Rasn::default().value_to_tokens(v, tn.as_ref()).map(|t| t.to_string()).map_err(|e| format!("{e:?}"))
+}
+#[cfg(not(kani))]
+pub fn hook_title_case(name: &str) -> String { crate::generator::rasn::Rasn::default().to_rust_title_case(name).to_string() }
+#[cfg(not(kani))]
+pub fn hook_const_case(name: &str) -> String { crate::generator::rasn::Rasn::default().to_rust_const_case(name).to_string() }
 #[cfg(not(kani))]
 pub fn hook_inner_name(name: &str, parent: &str) -> String { crate::generator::rasn::Rasn::default().inner_name(name, parent).to_string() }
 #[cfg(not(kani))]
